@@ -356,10 +356,13 @@ def plan (s : State) (alOffset nChunks : Nat) : List ((Nat × Nat) × Nat × Nat
   ((List.range nChunks).map fun i => alOffset + 0x200 * i).foldl (fun acc c => addChunk acc (chunkKey s c).1 (chunkKey s c).2) []
 
 /-- one piece of the second loop: read, fix the crypto flags of the header, trim the first and the last piece -/
-def pieceBytes (before cutEnd : Nat) (lastKey : Option (Nat × Nat)) (isStart : Bool) (key : Nat × Nat) (d : Bytes) : Bytes :=
+def pieceBytes (before cutEnd : Nat) (lastKey : Option (Nat × Nat)) (isStart : Bool) (key : Nat × Nat) (planned : Nat)
+    (d : Bytes) : Bytes :=
   let d := if key.1 == secHeader then setByte (setByte d 0x18B 0) 0x18F 4 else d
-  let d := if isStart then d.drop before else d
-  if some key == lastKey && cutEnd != 0x200 then pySlice d 0 (-(cutEnd : Int)) else d
+  -- `new_data[cut_start if is_start else 0 : planned - (cut_end if this is the last piece)]`: the end is trimmed relative to
+  -- the PLANNED length of the piece, so a last chunk cut short by the end of the file loses nothing it really has
+  let hi := if some key == lastKey && cutEnd != 0x200 then planned - cutEnd else planned
+  (d.take hi).drop (if isStart then before else 0)
 
 def assembleStep (gd : Nat → Nat → Int → Except Err Bytes) (before cutEnd : Nat) (lastKey : Option (Nat × Nat))
     (acc : Except Err (List Bytes × Bool)) (item : (Nat × Nat) × Nat × Nat) : Except Err (List Bytes × Bool) :=
@@ -368,7 +371,7 @@ def assembleStep (gd : Nat → Nat → Int → Except Err Bytes) (before cutEnd 
   | .ok (out, isStart) =>
     match gd item.1.1 item.2.1 item.2.2 with
     | .error e => .error e
-    | .ok d => .ok (out ++ [pieceBytes before cutEnd lastKey isStart item.1 d], false)
+    | .ok d => .ok (out ++ [pieceBytes before cutEnd lastKey isStart item.1 item.2.2 d], false)
 
 /-- the assembly of an aligned plan; `gd` = `get_data` of the sections -/
 def assemble (gd : Nat → Nat → Int → Except Err Bytes) (before cutEnd : Nat) (lastKey : Option (Nat × Nat))
